@@ -3,7 +3,7 @@
 of that group, undo it.  A check that exits 1 on such a change is a FALSE ALARM (exit 2 = undecided is tolerated)."""
 import json, os, subprocess, sys, re, glob
 ROOT = os.path.dirname(os.path.dirname(os.path.abspath(__file__)))
-GROUPS = {"G1": ["C01", "C02", "C03"], "G2": ["C04", "C05"], "G3": ["C06", "C07", "C08"], "G4": ["C09"], "G5": ["C10", "C11"], "G6": ["C12"], "G7": ["C13", "C14"], "G8": ["C16", "C17"]}
+GROUPS = {"G1": ["C01", "C02", "C03"], "G2": ["C04", "C05"], "G3": ["C06", "C07", "C08"], "G4": ["C09"], "G5": ["C10", "C11"], "G6": ["C12"], "G7": ["C13", "C14"], "G8": ["C16", "C17"], "G9": ["C11", "C05"], "G10": ["C13", "C14"]}
 # properties whose checks read a given source area (a refactoring is run against every property that can see it)
 only = sys.argv[1:]
 res = {}
